@@ -166,8 +166,7 @@ def rule_resolution_types(chk):
             r2 = pool.map_async(_ovl2_task, items2, chunksize=1)
             res = r1.get() + r2.get()
     if not all(r[1] for r in res):
-        chk.note("C16.types: write_function is not readable on the type model (%s)" % [r[4] for r in res if not r[1]][:1])
-        return False
+        return chk.unreadable("C16.types/readable", "write_function on the type model", [r[4] for r in res if not r[1]][:1], where(wf))
     sets, calls = sum(r[2] for r in res), sum(r[3] for r in res)
     ob = [r[4] for r in res if r[4]]
     eb = [r[5] for r in res if r[5]]
